@@ -65,6 +65,14 @@ Theorem grid_bad_wsum_sound : forall mode n sw ps ws,
 Proof. exact grid_bad_wsum_sound_lemma. Qed.
 Print Assumptions grid_bad_wsum_sound.
 
+(* Ylm at a rational point in closed form (sqrt of a rational multiple of 1/pi times a rational): used by the
+   harness to compare Ylm with the library's own real spherical harmonics by the interval tactic *)
+Theorem Ylm_rational : forall l m neg X Y Zc D, (m <= l)%nat -> (neg = true -> (1 <= m)%nat) -> (0 < D)%Z ->
+  Ylm l (signed m neg) (IZR X / IZR D) (IZR Y / IZR D) (IZR Zc / IZR D) =
+  sqrt (IZR (kappa_num l m) / (IZR (kappa_den l m) * PI)) * (IZR (Hz l m neg X Y Zc D) / IZR D ^ l).
+Proof. exact Ylm_rational_lemma. Qed.
+Print Assumptions Ylm_rational.
+
 (* non-vacuity: the two-point design (0,0,±1) with one stored weight 1/2 (broadcast, times 4 pi) is
    accepted for degree 1 and rejected at (l,m) = (2,0) *)
 Theorem example_two_point_design :
